@@ -373,8 +373,9 @@ fn check_cli(out: &mut Outcome, case: &Value, r: &cli::Run, args: &[String], pre
             };
             let sample_names: Vec<String> = case["cols"].as_array().unwrap().iter().map(|c| c.as_str().unwrap().to_string()).collect();
             let sample_in = |l: &str| -> Option<String> {
-                let toks: Vec<&str> = l.split(|c: char| !(c.is_ascii_alphanumeric() || c == '_')).collect();
-                sample_names.iter().find(|s| toks.contains(&s.as_str())).cloned()
+                // a sample name occurs as a whole: not glued to further letters or digits on either side
+                let glue = |c: Option<char>| c.map_or(false, |c| c.is_ascii_alphanumeric() || c == '_');
+                sample_names.iter().find(|s| l.match_indices(s.as_str()).any(|(i, m)| !glue(l[..i].chars().last()) && !glue(l[i + m.len()..].chars().next()))).cloned()
             };
             // which skipped sites are announced: the first one by default, all of them from -v on
             {
